@@ -168,6 +168,7 @@ def exchange_flows(ctx, rng, n):
                         body["requested_token_type"] = TT + rng.choice(["access_token", "refresh_token", "refresh_token"])
                     if other != client and rng.random() < 0.7:
                         body["audience"] = other
+                    tokens_before = list(rs.tokobj)
                     resp, err = token_call(rs, other, body)
                     rs.find_new_grants()
                     rs.harvest()
@@ -209,14 +210,13 @@ def exchange_flows(ctx, rng, n):
                                                       % (sorted(g2), list(stok.scope)), hist)
                                     if g2 - set(allowed(rs, other)):
                                         ctx.violation("exchange-not-allowed", "refresh of an exchanged token returned %r not allowed for %s" % (sorted(g2), other), hist)
-                        # every token held by an exchange grant stays within the subject token's scope
-                        from idpyoidc.server.session.grant import ExchangeGrant
-                        for (sid_, g_, u_, c_) in rs.grants:
-                            if isinstance(g_, ExchangeGrant):
-                                for t_ in g_.issued_token:
-                                    if set(t_.scope) - set(subject.scope if stok is subject else stok.scope) - set(stok.scope):
-                                        ctx.violation("exchange-refresh-widened", "token %s of an exchange grant carries %r beyond the subject token's %r"
-                                                      % (t_.token_class, sorted(t_.scope), list(stok.scope)), hist)
+                        # every token minted by this exchange (and by refreshing what it returned) stays within the scope of
+                        # the subject token it was derived from
+                        known = {id(t_) for t_ in tokens_before}
+                        for t_ in rs.tokobj:
+                            if id(t_) not in known and set(t_.scope) - set(stok.scope):
+                                ctx.violation("exchange-refresh-widened", "%s minted from a subject token with scope %r carries %r"
+                                              % (t_.token_class, list(stok.scope), sorted(t_.scope)), hist)
                         # chain: sometimes continue from the exchanged token
                         if newtok is not None and newtok.token_class == "access_token" and rng.random() < 0.5:
                             subject, client = newtok, other
